@@ -1,5 +1,7 @@
 (* Props/C01.v — property C01: the run verdict. *)
-From CV Require Import Model.Base Model.Events Model.Stats Model.StatsSpec Proofs.BaseP Proofs.StatsP.
+From CV Require Import Proofs.SchedP5.
+From CV Require Import Model.Base Model.Events Model.Contract Model.Combinators Model.Stats Model.StatsSpec Model.Pipeline
+  Proofs.BaseP Proofs.StatsP Proofs.PipelineP Proofs.PipelineP2.
 
 (* the verdict of a Summarize over ANY stream is: a parser error, a final step failure or a final hook
    failure occurred — outside known-finding class K01a (a hook failing in an attempt that is retried) *)
@@ -13,3 +15,47 @@ Proof. exact sm_verdict. Qed.
 Theorem C01_K01a_refuted :
   exists es, g_has_failed (sm_getters (sm_final (fun _ => Some 9) es)) = true /\ spec_failed (map snd es) = false.
 Proof. exact sm_verdict_K01a_refuted. Qed.
+
+(* ---- the verdict through the pipelines users build ---- *)
+
+(* a Summarize on top of ANYTHING (Normalize, Tee, another Summarize, ...): what is below does not matter *)
+Theorem C01_summarize_over_any_pipeline :
+  forall tags_of last_own q es,
+    k_hook_in_retried (before_finished (map snd es)) = false ->
+    qfailed (QSumm q) (qfinal tags_of last_own (QSumm q) es) = spec_failed (map snd es).
+Proof. exact verdict_summarize_over_anything. Qed.
+
+(* THE DEFAULT PIPELINE SHAPE, `.summarized().normalized()` = Normalize<Summarize<..>>: Summarize sees the stream
+   reordered by Normalize; for every complete contract-abiding stream the verdict is still the one of the Runner's
+   stream (by C11: the reordering is a permutation that keeps run-Finished last) *)
+Theorem C01_default_pipeline :
+  forall tags_of last_own q es,
+    contract (map snd es) = true ->
+    k_hook_in_retried (before_finished (map snd es)) = false ->
+    qfailed (QNorm (QSumm q)) (qfinal tags_of last_own (QNorm (QSumm q)) es) = spec_failed (map snd es).
+Proof. exact verdict_default_pipeline. Qed.
+Print Assumptions C01_default_pipeline.
+
+(* under Repeat the re-delivered events arrive after run-Finished, where Summarize is inert: same verdict *)
+Theorem C01_repeat_over_summarize :
+  forall tags_of last_own k q es,
+    k_hook_in_retried (before_finished (map snd es)) = false ->
+    qfailed (QRepeat k (QSumm q)) (qfinal tags_of last_own (QRepeat k (QSumm q)) es) = spec_failed (map snd es).
+Proof. exact verdict_repeat_over_summarize. Qed.
+
+(* under FailOnSkipped the verdict is that of the rewritten stream (skipped steps of the selected scenarios count as
+   failures) *)
+Theorem C01_fail_on_skipped_over_summarize :
+  forall tags_of last_own k q es,
+    let es' := map (fun e => (fst e, fos_ev (should_fail tags_of k) (snd e))) es in
+    k_hook_in_retried (before_finished (map snd es')) = false ->
+    qfailed (QFos k (QSumm q)) (qfinal tags_of last_own (QFos k (QSumm q)) es) = spec_failed (map snd es').
+Proof. exact verdict_fos_over_summarize. Qed.
+
+(* Tee fails iff one of its sides does; every pipeline's verdict is the default rule on the getters it reports *)
+Theorem C01_tee :
+  forall l r sl sr, qfailed (QTee l r) (TTwo sl sr) = qfailed l sl || qfailed r sr.
+Proof. exact verdict_tee. Qed.
+Theorem C01_verdict_is_default_rule_on_getters :
+  forall p s, qfailed p s = g_has_failed (qgetters p s).
+Proof. exact qfailed_getters. Qed.
